@@ -3,6 +3,7 @@ import random
 
 from common import call, main, rng_of, vlib
 import gencommon as g
+from optcommon import skey
 
 from predicate.generator.generate_true import generate_true
 from predicate import predicate as PP
@@ -60,7 +61,7 @@ def known_witness(fails):
 def search(payload):
     rng = rng_of(payload)
     deep = payload.get("deep") or payload["tier"] == "thorough"
-    preds = g.grid_true(payload["tier"]) + extra_kinds()
+    preds = g.grid_true(payload["tier"]) + extra_kinds() + g.search_extra("true")
     n_values = 60 if deep else 25
     fails, known_hits, n = [], [], 0
     for seed in range(3 if deep else 1):
@@ -74,7 +75,7 @@ def search(payload):
                 n += 1
                 k, r = call(p, v)
                 if k != "ok" or not r:
-                    rec = {"p": repr(p), "position": i, "value": repr(v), "p(value)": (repr(r) if k == "ok" else f"raises {r}")}
+                    rec = {"p": repr(p), "p_structure": skey(p), "position": i, "value": repr(v), "p(value)": (repr(r) if k == "ok" else f"raises {r}")}
                     if k == "raise" and any(isinstance(t, PP.OrPredicate) for t in g.subterms(p)):
                         known_hits.append({"id": 13, "p": repr(p)})
                     else:
